@@ -13,7 +13,7 @@ PROPERTY_ID = "C18"
 LEVEL = "exploration"
 RULE = (
     "ts_roundtrip: generated univariate equal-length panels over many magnitudes, label sets "
-    "(mixed-case strings, integers including 0, absent) and every writer option combination; the "
+    "(mixed-case strings, strings of any printable non-separator characters, integers including 0, absent) and every writer option combination; the "
     "file is re-read by the loader and independently tokenised by the harness: each loaded value "
     "== float(printed token), each token within half a unit of its last printed digit of the "
     "original, labels equal after lower-casing. formats_agree / loader_splits: exhaustive over the "
